@@ -8,6 +8,7 @@ import (
 
 	"github.com/emitter-io/emitter/verif/core"
 	"github.com/emitter-io/emitter/verif/drivers/authz"
+	"github.com/emitter-io/emitter/verif/drivers/ban"
 	vcrdt "github.com/emitter-io/emitter/verif/drivers/crdt"
 	"github.com/emitter-io/emitter/verif/drivers/history"
 	"github.com/emitter-io/emitter/verif/drivers/mqttc"
@@ -25,6 +26,7 @@ var checks = map[string]func(*core.Ctx){
 	"C08": session.RunC08,
 	"C11": authz.RunC11,
 	"C12": authz.RunC12,
+	"C14": ban.Run,
 	"C16": mqttc.Run,
 	"C18": session.RunC18,
 }
